@@ -75,6 +75,11 @@ func Param(name string, def int) int {
 	return def
 }
 
+// Known reports whether the known finding id is listed as open in
+// /verif/known_findings.json and its witness still reproduces; harnesses use it
+// to assume exactly that finding's input class away.
+func Known(id string) bool { return Param("known:"+id, 0) == 1 }
+
 func next0() {
 	p := os.Getenv("GOSX_REPLAY")
 	if p == "" {
